@@ -942,6 +942,18 @@ def slot_predicate(chk, F, rule, cfg, cf):
             for p in paths:
                 feasible = True
                 for d in p.decisions:
+                    dv_ = strip(d.value)
+                    if dv_[0] == 'discr' and dv_[2] == 'core::option::Option' and _range_path(field_path(dv_[1])[1])[-1:] == ['ordered_call_index_range']:
+                        # the slot range kept as Option<Range>: `None` = a pattern that owns no slot (unordered) - it must never claim one;
+                        # the partition below speaks about patterns that have a range
+                        if decision_variant(F, d) == 'None':
+                            feasible = False
+                            o_ = p.outcome[1] if p.outcome[0] == 'return' else None
+                            if (d1, d2) == (-1, -1):
+                                chk.ob(rule, 'a pattern without slots (range None) never owns a slot', o_ is not None and strip(o_) == ('c', False), config=cfg, fn=cf, site='pred:none',
+                                       what='slot predicate for a pattern without a range -> %s' % (show(o_)[:60] if o_ is not None else None))
+                            break
+                        continue
                     inner, t = L.truth_of(d)
                     cmp = as_comparison(inner) if t is not None else None
                     if not cmp:
@@ -979,12 +991,22 @@ def slot_predicate(chk, F, rule, cfg, cf):
                what='slot predicate boundary (i-start=%+d,i-end=%+d) -> %s' % (d1, d2, sorted(outs)), found=sorted(outs), expected=[want])
 
 
+def _range_path(ns):
+    """field path with the payload step of `Option<Range>` removed: [.., 'ordered_call_index_range', '0', 'start'] -> [.., 'ordered_call_index_range', 'start']"""
+    out = []
+    for i, n in enumerate(ns):
+        if n == '0' and i > 0 and ns[i - 1] == 'ordered_call_index_range':
+            continue
+        out.append(n)
+    return out
+
+
 def contains_owns_slot(o):
     """`range.contains(&x)` on the pattern's own slot range with x = the call's position itself (std contract: start <= x < end)"""
     o = strip(o)
     if not (is_call(o, r'ops::Range(<Idx>)?::contains$|RangeBounds>?::contains$') and len(o[2]) == 2):
         return False
-    if field_path(strip(o[2][0]))[1][-1:] != ['ordered_call_index_range']:
+    if _range_path(field_path(strip(o[2][0]))[1])[-1:] != ['ordered_call_index_range']:
         return False
     a = strip(o[2][1])
     if a[0] == 'ref' and len(a) > 3:
@@ -1012,6 +1034,7 @@ def eval_slot_cmp(cmp, d1, d2, want_sym=False):
         if c != 1:
             return None
         root, ns = field_path(s)
+        ns = _range_path(ns)
         if ns[-2:] == ['ordered_call_index_range', 'start']:
             return ('start', lin[1])
         if ns[-2:] == ['ordered_call_index_range', 'end']:
